@@ -187,29 +187,27 @@ def isDiffHeader : State → Bool
   | .diffHeader _ => true
   | _ => false
 
-/-- `Config::get_style` (`delta_unreachable` for the other states) -/
-def getStyle (cfg : Cfg) : State → Except String ElemStyle
-  | .hunkMinus _ => .ok cfg.minusStyle
-  | .hunkZero _ => .ok cfg.zeroStyle
-  | .hunkPlus _ => .ok cfg.plusStyle
-  | .commitMeta => .ok cfg.commitStyle
-  | .diffHeader _ => .ok cfg.fileStyle
-  | .grep => .ok cfg.grepHeaderStyle
-  | .hunkHeader .. => .ok cfg.hunkHeaderStyle
-  | .submoduleLog => .ok cfg.fileStyle
-  | _ => .error "Unreachable code reached in get_style."
+/-- `Config::try_get_style` -/
+def getStyle (cfg : Cfg) : State → Option ElemStyle
+  | .hunkMinus _ => some cfg.minusStyle
+  | .hunkZero _ => some cfg.zeroStyle
+  | .hunkPlus _ => some cfg.plusStyle
+  | .commitMeta => some cfg.commitStyle
+  | .diffHeader _ => some cfg.fileStyle
+  | .grep => some cfg.grepHeaderStyle
+  | .hunkHeader .. => some cfg.hunkHeaderStyle
+  | .submoduleLog => some cfg.fileStyle
+  | _ => none
 
-/-- `StateMachine::should_handle` -/
-def shouldHandle (cfg : Cfg) (m : M) : Except String Bool := do
-  let s ← getStyle cfg m.st
-  pure (!(s.isRaw && s.deco = .none))
+/-- `StateMachine::should_handle`: states without a style of their own are handled -/
+def shouldHandle (cfg : Cfg) (m : M) : Bool :=
+  match getStyle cfg m.st with
+  | some s => !(s.isRaw && s.deco = .none)
+  | none => true
 
 /-- `StateMachine::should_skip_line` -/
-def shouldSkipLine (cfg : Cfg) (m : M) : Except String Bool :=
-  if isDiffHeader m.st then do
-    let h ← shouldHandle cfg m
-    pure (h && !cfg.colorOnly)
-  else pure false
+def shouldSkipLine (cfg : Cfg) (m : M) : Bool :=
+  isDiffHeader m.st && shouldHandle cfg m && !cfg.colorOnly
 
 /-- `StateMachine::emit_line_unchanged` -/
 def emitLineUnchanged (m : M) (l : L) : M :=
@@ -231,19 +229,16 @@ def handleHeaderLine (cfg : Cfg) (m : M) (comparing : Bool) : M :=
 def pendingTest (m : M) : Bool := isDiffHeader m.st || m.source = .diffUnified
 
 /-- `handle_pending_line_with_diff_name` -/
-def pendingDiffName (cfg : Cfg) (m : M) : Except String M :=
-  if !pendingTest m then .ok m
-  else if m.modeInfo ≠ [] then do
-    let name ← repeatedFilePath m.diffLine m.diffLineG
-    let line := formatLabel cfg.labels.modified ++ name.getD []
-    pure (writeGeneric cfg (emit m) line line)
-  else if cfg.colorOnly then .ok m
-  else do
-    let h ← shouldHandle cfg m
-    if h ∧ m.handledPair ≠ m.currentPair then
-      let m1 := handleHeaderLine cfg (emit m) (m.source = .diffUnified)
-      pure { m1 with handledPair := m1.currentPair }
-    else pure m
+def pendingDiffName (cfg : Cfg) (m : M) : M :=
+  if !pendingTest m then m
+  else if m.modeInfo ≠ [] then
+    let line := formatLabel cfg.labels.modified ++ (repeatedFilePath m.diffLine m.diffLineG).getD []
+    writeGeneric cfg (emit m) line line
+  else if cfg.colorOnly then m
+  else if shouldHandle cfg m ∧ m.handledPair ≠ m.currentPair then
+    let m1 := handleHeaderLine cfg (emit m) (m.source = .diffUnified)
+    { m1 with handledPair := m1.currentPair }
+  else m
 
 -- ---------------------------------------------------------------- handlers
 -- Each returns (handled, new machine); errors are the Rust panics / `fatal` exits.
@@ -251,32 +246,39 @@ def pendingDiffName (cfg : Cfg) (m : M) : Except String M :=
 abbrev Handler := Cfg → M → L → Except String (Bool × M)
 
 def handleCommitMeta : Handler := fun cfg m l =>
-  if !l.commitRe then .ok (false, m) else do
-    let m1 ← pendingDiffName cfg (flushMP m)
-    let m2 := { m1 with st := .commitMeta }
-    if ← shouldHandle cfg m2 then
-      let m3 := emit m2
-      if cfg.commitStyle.isOmitted ∧ ¬ cfg.colorOnly then pure (true, m3)
-      else pure (true, direct m3 (drawRows cfg.commitStyle .commit l.text l.raw [] m.n))
-    else pure (false, m2)
+  if !l.commitRe then .ok (false, m)
+  else if shouldHandle cfg { pendingDiffName cfg (flushMP m) with st := .commitMeta } then
+    if cfg.commitStyle.isOmitted ∧ ¬ cfg.colorOnly then
+      .ok (true, emit { pendingDiffName cfg (flushMP m) with st := .commitMeta })
+    else
+      .ok (true, direct (emit { pendingDiffName cfg (flushMP m) with st := .commitMeta })
+        (drawRows cfg.commitStyle .commit l.text l.raw [] m.n))
+  else .ok (false, { pendingDiffName cfg (flushMP m) with st := .commitMeta })
 
 /-- `relative-paths` is off in the model, so the diff-stat handler never claims a line. -/
 def handleDiffStat : Handler := fun _ m _ => .ok (false, m)
 
+def diffLineGraphemes (l : L) : List Str :=
+  if startsWith l.text Markers.diffGit then l.graphemes.drop Markers.diffGit.length else []
+
+/-- the state a `diff ` line puts the machine in -/
+def diffLineState (l : L) : State :=
+  if startsWithAny l.text Markers.combinedDiffLine
+  then .diffHeader (.combined .unknown false) else .diffHeader .unified
+
+/-- the per-file fields a `diff ` line (re)sets -/
+def diffLineFields (m2 : M) (l : L) : M :=
+  let nm := (repeatedFilePath l.text (diffLineGraphemes l)).getD []
+  { m2 with handledPair := none, diffLine := l.text, diffLineG := diffLineGraphemes l,
+            minusFile := nm, plusFile := nm, minusEvent := .change, plusEvent := .change,
+            currentPair := some (nm, nm) }
+
 def handleDiffHeaderDiff : Handler := fun cfg m l =>
-  if !startsWith l.text Markers.diffLine then .ok (false, m) else do
-    let m1 := flushMP m
-    let st := if startsWithAny l.text Markers.combinedDiffLine
-              then State.diffHeader (.combined .unknown false) else .diffHeader .unified
-    let m2 ← pendingDiffName cfg { m1 with st := st }
-    let gs := if startsWith l.text Markers.diffGit
-              then (l.graphemes.drop Markers.diffGit.length) else []
-    let name ← repeatedFilePath l.text gs
-    let nm := name.getD []
-    let m3 := { m2 with handledPair := none, diffLine := l.text, diffLineG := gs,
-                        minusFile := nm, plusFile := nm, minusEvent := .change, plusEvent := .change,
-                        currentPair := some (nm, nm) }
-    if ← shouldSkipLine cfg m3 then pure (true, m3) else pure (true, emitLineUnchanged m3 l)
+  if !startsWith l.text Markers.diffLine then .ok (false, m)
+  else if shouldSkipLine cfg (diffLineFields (pendingDiffName cfg { flushMP m with st := diffLineState l }) l) then
+    .ok (true, diffLineFields (pendingDiffName cfg { flushMP m with st := diffLineState l }) l)
+  else
+    .ok (true, emitLineUnchanged (diffLineFields (pendingDiffName cfg { flushMP m with st := diffLineState l }) l) l)
 
 /-- `should_write_generic_diff_header_header_line` -/
 def shouldWriteGeneric (cfg : Cfg) (m : M) (l : L) : Bool × M :=
@@ -293,21 +295,15 @@ def fileOpUpdate (m : M) (ev : FileEvent) (nm : Str) : M :=
                        plusEvent := .change, currentPair := some (Markers.devNull, nm) }
   | _ => m
 
-def fileOpFinish (cfg : Cfg) (m1 : M) (l : L) : Except String (Bool × M) :=
-  if (shouldWriteGeneric cfg m1 l).1 then .ok (true, (shouldWriteGeneric cfg m1 l).2)
-  else
-    match shouldHandle cfg m1 with
-    | .error e => .error e
-    | .ok h => .ok (h && m1.handledPair ≠ m1.currentPair, m1)
+def fileOpFinish (cfg : Cfg) (m1 : M) (l : L) : Bool × M :=
+  if (shouldWriteGeneric cfg m1 l).1 then (true, (shouldWriteGeneric cfg m1 l).2)
+  else (shouldHandle cfg m1 && m1.handledPair ≠ m1.currentPair, m1)
 
 def handleFileOperation : Handler := fun cfg m l =>
   if !(headerLineTest m && startsWithAny l.text Markers.fileOperationLine) then .ok (false, m) else
-    match parseDiffHeaderLine l.text (m.source = .gitDiff) with
-    | .error e => .error e
-    | .ok (_, ev) =>
-      match repeatedFilePath m.diffLine m.diffLineG with
-      | .error e => .error e
-      | .ok name => fileOpFinish cfg (fileOpUpdate m ev (name.getD [])) l
+    .ok (fileOpFinish cfg
+      (fileOpUpdate m (parseDiffHeaderLine l.text (m.source = .gitDiff)).2
+        ((repeatedFilePath m.diffLine m.diffLineG).getD [])) l)
 
 /-- `AmbiguousDiffMinusCounter::three_dashes_expected` -/
 def threeDashesExpected (c : Int) : Bool := if c > -4096 then c ≤ 0 else true
@@ -319,34 +315,26 @@ def minusLineTest (m : M) (l : L) : Bool :=
 
 def handleMinusLine : Handler := fun cfg m l =>
   if !minusLineTest m l then .ok (false, m) else
-    match parseDiffHeaderLine l.text (m.source = .gitDiff) with
-    | .error e => .error e
-    | .ok (path, ev) =>
-      let m1 := { m with minusFile := path, minusEvent := ev,
-                         st := if m.source = .diffUnified then .diffHeader .unified else m.st }
-      .ok (shouldWriteGeneric cfg (flushMP m1) l)
+    let pe := parseDiffHeaderLine l.text (m.source = .gitDiff)
+    let m1 := { m with minusFile := pe.1, minusEvent := pe.2,
+                       st := if m.source = .diffUnified then .diffHeader .unified else m.st }
+    .ok (shouldWriteGeneric cfg (flushMP m1) l)
 
 def plusLineTest (m : M) (l : L) : Bool :=
   headerLineTest m && startsWithAny l.text Markers.plusLine
 
-def plusLineFinish (cfg : Cfg) (m1 : M) (l : L) : Except String (Bool × M) :=
-  if (shouldWriteGeneric cfg m1 l).1 then .ok (true, (shouldWriteGeneric cfg m1 l).2)
-  else
-    match shouldHandle cfg m1 with
-    | .error e => .error e
-    | .ok h =>
-      if h ∧ m1.handledPair ≠ m1.currentPair then
-        let m3 := handleHeaderLine cfg (emit m1) (m1.source = .diffUnified)
-        .ok (false, { m3 with handledPair := m3.currentPair })
-      else .ok (false, m1)
+def plusLineFinish (cfg : Cfg) (m1 : M) (l : L) : Bool × M :=
+  if (shouldWriteGeneric cfg m1 l).1 then (true, (shouldWriteGeneric cfg m1 l).2)
+  else if shouldHandle cfg m1 ∧ m1.handledPair ≠ m1.currentPair then
+    let m3 := handleHeaderLine cfg (emit m1) (m1.source = .diffUnified)
+    (false, { m3 with handledPair := m3.currentPair })
+  else (false, m1)
 
 def handlePlusLine : Handler := fun cfg m l =>
   if !plusLineTest m l then .ok (false, m) else
-    match parseDiffHeaderLine l.text (m.source = .gitDiff) with
-    | .error e => .error e
-    | .ok (path, ev) =>
-      plusLineFinish cfg
-        (flushMP { m with plusFile := path, plusEvent := ev, currentPair := some (m.minusFile, path) }) l
+    let pe := parseDiffHeaderLine l.text (m.source = .gitDiff)
+    .ok (plusLineFinish cfg
+      (flushMP { m with plusFile := pe.1, plusEvent := pe.2, currentPair := some (m.minusFile, pe.1) }) l)
 
 def isMergeConflict : State → Bool
   | .mergeConflict .. => true
@@ -372,9 +360,8 @@ def hunkHeaderCounter (m : M) (hh : HunkHeader) : Int :=
 def handleHunkHeader : Handler := fun _ m l =>
   if !(startsWith l.text Markers.hunkHeader && !isMergeConflict m.st) then .ok (false, m) else
     match parseHunkHeader l.text with
-    | .error e => .error e
-    | .ok none => .ok (false, m)
-    | .ok (some hh) =>
+    | none => .ok (false, m)
+    | some hh =>
       .ok (true, { m with counter := hunkHeaderCounter m hh,
                           st := .hunkHeader (hunkHeaderDiffType m l) hh l.text l.raw m.n })
 
@@ -386,28 +373,22 @@ def modeInfoText (cfg : Cfg) (oldMode suf : Str) : Str :=
 def handleModeLine : Handler := fun cfg m l =>
   match stripPrefix l.text Markers.oldMode with
   | some suf =>
-    match shouldHandle cfg { m with st := .diffHeader .unified } with
-    | .error e => .error e
-    | .ok sh =>
-      if sh ∧ ¬ cfg.colorOnly then .ok (true, { m with st := .diffHeader .unified, modeInfo := suf })
-      else .ok (false, { m with st := .diffHeader .unified })
+    if shouldHandle cfg { m with st := .diffHeader .unified } ∧ ¬ cfg.colorOnly then
+      .ok (true, { m with st := .diffHeader .unified, modeInfo := suf })
+    else .ok (false, { m with st := .diffHeader .unified })
   | none =>
     match stripPrefix l.text Markers.newMode with
     | some suf =>
-      match shouldHandle cfg { m with st := .diffHeader .unified } with
-      | .error e => .error e
-      | .ok sh =>
-        if sh ∧ ¬ cfg.colorOnly ∧ m.modeInfo ≠ [] then
-          .ok (true, { m with st := .diffHeader .unified, modeInfo := modeInfoText cfg m.modeInfo suf })
-        else .ok (false, { m with st := .diffHeader .unified })
+      if shouldHandle cfg { m with st := .diffHeader .unified } ∧ ¬ cfg.colorOnly ∧ m.modeInfo ≠ [] then
+        .ok (true, { m with st := .diffHeader .unified, modeInfo := modeInfoText cfg m.modeInfo suf })
+      else .ok (false, { m with st := .diffHeader .unified })
     | none => .ok (false, m)
 
 /-- `handle_additional_cases` -/
 def handleAdditionalCases (cfg : Cfg) (m : M) (l : L) (to : State) : Except String (Bool × M) :=
-  match shouldHandle cfg { flushMP m with st := to } with
-  | .error e => .error e
-  | .ok true => .ok (true, writeGeneric cfg (emit { flushMP m with st := to }) l.text l.raw)
-  | .ok false => .ok (false, { flushMP m with st := to })
+  if shouldHandle cfg { flushMP m with st := to } then
+    .ok (true, writeGeneric cfg (emit { flushMP m with st := to }) l.text l.raw)
+  else .ok (false, { flushMP m with st := to })
 
 def binarySuffix : Str := " (binary file)".toList
 
@@ -453,11 +434,13 @@ def handleSubmoduleShort : Handler := fun cfg m l =>
           [{ kind := .submodule, text := minusCommit.take 12 ++ ['.', '.'] ++ commit.take 12, src := m.n }])
       | _ => .ok (true, m)
 
+def prefixBytes (p : Str) : Nat := p.foldl (fun a c => a + c.utf8Size) 0
+
 /-- `DiffType::n_parents` -/
 def nParents : DiffType → Except String Nat
   | .unified => .ok 1
   | .combined (.number n) _ => .ok n
-  | .combined (.pre p) _ => .ok (p.foldl (fun a c => a + c.utf8Size) 0)
+  | .combined (.pre p) _ => .ok (prefixBytes p)
   | .combined .unknown _ => .error "Number of merge parents must be known."
 
 /-- `paint::prepare` minus the trailing newline: drop the prefix columns, expand tabs.
@@ -469,53 +452,56 @@ def prepare (cfg : Cfg) (n : Nat) (l : L) : Str :=
     Text.expand cfg.tab (l.text.drop n)
   else Text.expand cfg.tab (l.graphemes.drop n).flatten
 
-/-- `&new_line[..min(n, new_line.len())]`: the longest prefix of at most `n` bytes; panics when
-byte `n` is not a char boundary. -/
-def bytePrefix : Nat → Str → Except String Str
-  | 0, _ => .ok []
-  | _, [] => .ok []
-  | n + 1, c :: cs =>
-    if c.utf8Size ≤ n + 1 then do
-      let r ← bytePrefix (n + 1 - c.utf8Size) cs
-      pure (c :: r)
-    else .error "byte index is not a char boundary (new_line_state)"
+/-- `&new_line[..floor_char_boundary(new_line, min(n, new_line.len()))]`: the longest prefix of
+whole characters that fits in `n` bytes. -/
+def bytePrefix : Nat → Str → Str
+  | 0, _ => []
+  | _, [] => []
+  | n + 1, c :: cs => if c.utf8Size ≤ n + 1 then c :: bytePrefix (n + 1 - c.utf8Size) cs else []
 
 inductive LineKind | minus | zero | plus
   deriving DecidableEq, Repr
 
+/-- step 1 of `new_line_state`: the diff type of the new line, from the previous state (a string
+prefix becomes its length); `none` = the `delta_unreachable` arm -/
+def hunkDiffType : State → Option DiffType
+  | .hunkMinus .unified | .hunkZero .unified | .hunkPlus .unified | .hunkHeader .unified .. => some .unified
+  | .hunkHeader (.combined (.number n) false) .. => some (.combined (.number n) false)
+  | .hunkHeader (.combined (.pre p) false) .. => some (.combined (.number (prefixBytes p)) false)
+  | .hunkMinus (.combined (.pre p) c) | .hunkZero (.combined (.pre p) c)
+  | .hunkPlus (.combined (.pre p) c) => some (.combined (.number (prefixBytes p)) c)
+  | .hunkMinus (.combined (.number n) c) | .hunkZero (.combined (.number n) c)
+  | .hunkPlus (.combined (.number n) c) => some (.combined (.number n) c)
+  | _ => none
+
+/-- steps 2–3 for a unified diff: the first character decides -/
+def classifyUnified (l : L) : Option (LineKind × DiffType) :=
+  match l.text.head? with
+  | some '-' => some (.minus, .unified)
+  | some ' ' => some (.zero, .unified)
+  | some '+' => some (.plus, .unified)
+  | _ => none
+
+/-- steps 2–3 for a combined diff with `n` parents: the first `n` columns decide -/
+def classifyCombined (n : Nat) (c : Bool) (l : L) : Option (LineKind × DiffType) :=
+  let pre := bytePrefix n l.text
+  let pc : Option Char :=
+    match pre.find? (fun ch => ch = '-' ∨ ch = '+') with
+    | some ch => some ch
+    | none => if pre.all (· = ' ') then some ' ' else none
+  match pc with
+  | some '-' => some (.minus, .combined (.pre pre) c)
+  | some ' ' => some (.zero, .combined (.pre pre) c)
+  | some '+' => some (.plus, .combined (.pre pre) c)
+  | _ => none
+
 /-- `new_line_state`: the kind of the hunk line and its new diff type, or `none`. -/
-def newLineState (st : State) (l : L) : Except String (Option (LineKind × DiffType)) := do
-  let dt : DiffType ← match st with
-    | .hunkMinus .unified | .hunkZero .unified | .hunkPlus .unified
-    | .hunkHeader .unified .. => pure DiffType.unified
-    | .hunkHeader (.combined (.number n) false) .. => pure (.combined (.number n) false)
-    | .hunkHeader (.combined (.pre p) false) .. =>
-      pure (.combined (.number (p.foldl (fun a c => a + c.utf8Size) 0)) false)
-    | .hunkMinus (.combined (.pre p) c) | .hunkZero (.combined (.pre p) c)
-    | .hunkPlus (.combined (.pre p) c) =>
-      pure (.combined (.number (p.foldl (fun a c => a + c.utf8Size) 0)) c)
-    | .hunkMinus (.combined (.number n) c) | .hunkZero (.combined (.number n) c)
-    | .hunkPlus (.combined (.number n) c) => pure (.combined (.number n) c)
-    | _ => throw "Unexpected state in new_line_state"
-  match dt with
-  | .unified =>
-    match l.text.head? with
-    | some '-' => pure (some (.minus, .unified))
-    | some ' ' => pure (some (.zero, .unified))
-    | some '+' => pure (some (.plus, .unified))
-    | _ => pure none
-  | .combined (.number n) c => do
-    let pre ← bytePrefix n l.text
-    let pc : Option Char :=
-      match pre.find? (fun ch => ch = '-' ∨ ch = '+') with
-      | some ch => some ch
-      | none => if pre.all (· = ' ') then some ' ' else none
-    match pc with
-    | some '-' => pure (some (.minus, .combined (.pre pre) c))
-    | some ' ' => pure (some (.zero, .combined (.pre pre) c))
-    | some '+' => pure (some (.plus, .combined (.pre pre) c))
-    | _ => pure none
-  | _ => throw "delta_unreachable (new_line_state)"
+def newLineState (st : State) (l : L) : Except String (Option (LineKind × DiffType)) :=
+  match hunkDiffType st with
+  | none => .error "Unexpected state in new_line_state"
+  | some .unified => .ok (classifyUnified l)
+  | some (.combined (.number n) c) => .ok (classifyCombined n c l)
+  | some _ => .error "delta_unreachable (new_line_state)"
 
 /-- `painted_prefix` (text only) -/
 def paintedPrefix (cfg : Cfg) (k : LineKind) : DiffType → Str
@@ -524,28 +510,31 @@ def paintedPrefix (cfg : Cfg) (k : LineKind) : DiffType → Str
       (match k with | .minus => ['-'] | .zero => [' '] | .plus => ['+'])
     else []
 
-/-- text of the hunk-header row (`write_line_of_code_with_optional_path_and_line_number`),
-`none` when nothing is written; error when the coordinate list is empty. -/
-def hunkHeaderText (cfg : Cfg) (m : M) (hh : HunkHeader) (line : Str) : Except String (Option Str) :=
+/-- text of the hunk-header row for a given new-file line number; `none` when nothing is written -/
+def hunkHeaderTextOf (cfg : Cfg) (m : M) (hh : HunkHeader) (line : Str) (plusLineNumber : Nat) : Option Str :=
   let body : Str :=
     if cfg.colorOnly then line
     else if cfg.hhFragment ∧ hh.fragment ≠ [] then hh.fragment ++ [' ']
     else []
+  let file := if m.plusFile = Markers.devNull then m.minusFile else m.plusFile
+  let showNumber := cfg.hhLineNumber ∧ ¬ cfg.hunkHeaderStyle.isRaw ∧ ¬ cfg.colorOnly
+  let fwln : Str :=
+    (if cfg.hhFile then file else []) ++
+    (if showNumber then (if cfg.hhFile then [':'] else []) ++ (toString plusLineNumber).toList else [])
+  -- the Rust test is on the *painted* string: a styled empty path still yields escape sequences
+  let fwlnPainted : Bool := fwln ≠ [] || (cfg.hhFile && !cfg.hhFileStylePlain)
+  if body = [] ∧ fwlnPainted = false then none
+  else
+    let label := if cfg.hunkLabel ≠ [] then cfg.hunkLabel ++ [' '] else []
+    let loc := if fwlnPainted then fwln ++ [':'] ++ (if body = [] then [' '] else []) else []
+    some (label ++ loc ++ Text.expand cfg.tab body)
+
+/-- text of the hunk-header row (`write_line_of_code_with_optional_path_and_line_number`);
+error when the coordinate list is empty (`line_numbers_and_hunk_lengths[len - 1]`). -/
+def hunkHeaderText (cfg : Cfg) (m : M) (hh : HunkHeader) (line : Str) : Except String (Option Str) :=
   match hh.coords.getLast? with
   | none => .error "attempt to subtract with overflow (line_numbers_and_hunk_lengths.len() - 1)"
-  | some (plusLineNumber, _) =>
-    let file := if m.plusFile = Markers.devNull then m.minusFile else m.plusFile
-    let showNumber := cfg.hhLineNumber ∧ ¬ cfg.hunkHeaderStyle.isRaw ∧ ¬ cfg.colorOnly
-    let fwln : Str :=
-      (if cfg.hhFile then file else []) ++
-      (if showNumber then (if cfg.hhFile then [':'] else []) ++ (toString plusLineNumber).toList else [])
-    -- the Rust test is on the *painted* string: a styled empty path still yields escape sequences
-    let fwlnPainted : Bool := fwln ≠ [] || (cfg.hhFile && !cfg.hhFileStylePlain)
-    if body = [] ∧ fwlnPainted = false then .ok none
-    else
-      let label := if cfg.hunkLabel ≠ [] then cfg.hunkLabel ++ [' '] else []
-      let loc := if fwlnPainted then fwln ++ [':'] ++ (if body = [] then [' '] else []) else []
-      .ok (some (label ++ loc ++ Text.expand cfg.tab body))
+  | some (plusLineNumber, _) => .ok (hunkHeaderTextOf cfg m hh line plusLineNumber)
 
 /-- rows of `emit_hunk_header_line` (written directly after flushing and emitting) -/
 def hunkHeaderRows (cfg : Cfg) (m1 : M) (hh : HunkHeader) (line raw : Str) (src : Nat) :
@@ -688,22 +677,29 @@ def storeOr (o : Option M) (alt : Except String M) : Except String (Bool × M) :
     | .error e => .error e
     | .ok m' => .ok (true, m')
 
+/-- the merge parents of a combined-diff hunk state outside a conflict region -/
+def hunkCombinedParents : State → Option MergeParents
+  | .hunkHeader (.combined mp false) .. | .hunkMinus (.combined mp false)
+  | .hunkZero (.combined mp false) | .hunkPlus (.combined mp false) => some mp
+  | _ => none
+
 def handleMergeConflict : Handler := fun cfg m l =>
   if cfg.colorOnly ∨ ¬ cfg.mergeConflicts then .ok (false, m) else
-  match m.st with
-  | .hunkHeader (.combined mp false) .. | .hunkMinus (.combined mp false)
-  | .hunkZero (.combined mp false) | .hunkPlus (.combined mp false) =>
+  match hunkCombinedParents m.st with
+  | some mp =>
     match parseMergeMarker l.text Markers.mcBegin with
     | some c => .ok (true, { flushMP m with st := .mergeConflict mp .ours, mcNameOurs := some c })
     | none => .ok (false, m)
-  | .mergeConflict mp .ours =>
-    storeOr (enterAncestral m l mp <|> enterTheirs m l mp <|> exitMergeConflict cfg m l mp)
-      (storeLine cfg m l .ours mp .plus)
-  | .mergeConflict mp .ancestral =>
-    storeOr (enterTheirs m l mp <|> exitMergeConflict cfg m l mp) (storeLine cfg m l .ancestral mp .minus)
-  | .mergeConflict mp .theirs =>
-    storeOr (exitMergeConflict cfg m l mp) (storeLine cfg m l .theirs mp .plus)
-  | _ => .ok (false, m)
+  | none =>
+    match m.st with
+    | .mergeConflict mp .ours =>
+      storeOr (enterAncestral m l mp <|> enterTheirs m l mp <|> exitMergeConflict cfg m l mp)
+        (storeLine cfg m l .ours mp .plus)
+    | .mergeConflict mp .ancestral =>
+      storeOr (enterTheirs m l mp <|> exitMergeConflict cfg m l mp) (storeLine cfg m l .ancestral mp .minus)
+    | .mergeConflict mp .theirs =>
+      storeOr (exitMergeConflict cfg m l mp) (storeLine cfg m l .theirs mp .plus)
+    | _ => .ok (false, m)
 
 -- the tail of the chain -------------------------------------------------------
 
@@ -723,10 +719,7 @@ def handleGrep : Handler := fun _ m l =>
     else .ok (true, { direct m1 [{ kind := .grep, text := l.text, src := m.n }] with st := .grep })
   else .ok (false, m1)
 
-def handleShouldSkip : Handler := fun cfg m _ =>
-  match shouldSkipLine cfg m with
-  | .error e => .error e
-  | .ok b => .ok (b, m)
+def handleShouldSkip : Handler := fun cfg m _ => .ok (shouldSkipLine cfg m, m)
 
 def handleEmitUnchanged : Handler := fun _ m l => .ok (true, emitLineUnchanged m l)
 
@@ -789,7 +782,7 @@ def step (cfg : Cfg) (m : M) (l : L) : Except String M :=
 /-- one statement of the tail of `consume`, by name -/
 def tailOp (cfg : Cfg) (m : M) : String → Except String M
   | "painter.paint_buffered_minus_and_plus_lines" => .ok (flushMP m)
-  | "handle_pending_line_with_diff_name" => pendingDiffName cfg m
+  | "handle_pending_line_with_diff_name" => .ok (pendingDiffName cfg m)
   | "painter.emit" => .ok (emit m)
   | other => .error ("model has no tail operation named " ++ other)
 
